@@ -640,6 +640,200 @@ Proof.
   - apply d_read_bit_nonneg.
 Qed.
 
+(* ------------------------------------------------ the two readers agree *)
+Definition sim_core (r : rst) (d : dst) : Prop :=
+  r_wf r /\ d_wf d /\ r_view r = d_view d /\ r_bitpos r = d_bitpos d.
+Definition sim (r : rst) (d : dst) : Prop := sim_core r d /\ r_rem r = None.
+Definition simb (r : rst) (d : dst) : Prop :=
+  sim_core r d /\ exists k, r_rem r = Some k /\ d_left d = Z.max 0 k.
+
+Definition rel_res {A} (Rel : rst -> dst -> Prop) (m1 : rst * res A) (m2 : dst * res A) : Prop :=
+  match m1, m2 with
+  | (s1, Ok a1), (s2, Ok a2) => a1 = a2 /\ Rel s1 s2
+  | (s1, Err e1), (s2, Err e2) => eof_class e1 = eof_class e2 /\ r_bitpos s1 = d_bitpos s2
+  | _, _ => False
+  end.
+Definition rel_bit (Rel : rst -> dst -> Prop) (m1 : rst * res Z) (m2 : dst * res Z) : Prop :=
+  rel_res Rel m1 m2 /\ match m1 with (_, Ok a) => a = 0 \/ a = 1 | _ => True end.
+
+Section Param.
+  Variable rb1 : rst -> rst * res Z.
+  Variable rb2 : dst -> dst * res Z.
+  Variable Rel : rst -> dst -> Prop.
+  Hypothesis Hpos : forall r d, Rel r d -> r_bitpos r = d_bitpos d.
+  Hypothesis Hbit : forall r d, Rel r d -> rel_bit Rel (rb1 r) (rb2 d).
+
+  Lemma par_nbits : forall n acc r d, Rel r d ->
+    rel_res Rel (g_nbits rb1 Z.lor n acc r) (g_nbits rb2 Z.add n acc d).
+  Proof.
+    induction n; intros acc r d R; cbn [g_nbits].
+    - cbn. split; [reflexivity|assumption].
+    - destruct (Hbit _ _ R) as [H1 H2].
+      destruct (rb1 r) as [r1 [a1|e1]], (rb2 d) as [d1 [a2|e2]]; cbn in H1; try contradiction; cbn [bind].
+      + destruct H1 as [-> R1].
+        assert (E : Z.lor (Z.shiftl acc 1) a2 = Z.shiftl acc 1 + a2).
+        { destruct H2 as [->| ->].
+          - pose proof (lor_comb acc false) as L. pose proof (add_comb acc false) as L2. cbn [b2z] in *. congruence.
+          - pose proof (lor_comb acc true) as L. pose proof (add_comb acc true) as L2. cbn [b2z] in *. congruence. }
+        rewrite E. apply IHn. assumption.
+      + exact H1.
+  Qed.
+
+  Lemma par_uint : forall f v r d, Rel r d ->
+    rel_res Rel (g_uint rb1 f v r) (g_uint rb2 f v d).
+  Proof.
+    induction f; intros v r d R; cbn [g_uint].
+    - cbn. split; [reflexivity|]. apply Hpos; assumption.
+    - destruct (Hbit _ _ R) as [H1 _].
+      destruct (rb1 r) as [r1 [a1|e1]], (rb2 d) as [d1 [a2|e2]]; cbn in H1; try contradiction; cbn [bind].
+      + destruct H1 as [-> R1]. destruct (z2b a2).
+        * cbn. split; [reflexivity|assumption].
+        * destruct (Hbit _ _ R1) as [K1 _].
+          destruct (rb1 r1) as [r2 [b1|e1]], (rb2 d1) as [d2 [b2|e2]]; cbn in K1; try contradiction; cbn [bind].
+          -- destruct K1 as [-> R2]. apply IHf. assumption.
+          -- exact K1.
+      + exact H1.
+  Qed.
+
+  Lemma par_sint : forall f r d, Rel r d -> rel_res Rel (g_sint rb1 f r) (g_sint rb2 f d).
+  Proof.
+    intros f r d R. unfold g_sint. pose proof (par_uint f 1 r d R) as U.
+    destruct (g_uint rb1 f 1 r) as [r1 [a1|e1]], (g_uint rb2 f 1 d) as [d1 [a2|e2]]; cbn in U; try contradiction; cbn [bind].
+    - destruct U as [-> R1]. destruct (a2 =? 0).
+      + cbn. split; [reflexivity|assumption].
+      + destruct (Hbit _ _ R1) as [K1 _].
+        destruct (rb1 r1) as [r2 [b1|e1]], (rb2 d1) as [d2 [b2|e2]]; cbn in K1; try contradiction; cbn [bind].
+        * destruct K1 as [-> R2]. cbn. split; [reflexivity|assumption].
+        * exact K1.
+    - exact U.
+  Qed.
+End Param.
+
+Lemma sim_bit r d : sim r d -> rel_bit sim (r_read_bit r) (d_read_bit d).
+Proof.
+  intros [[Wr [Wd [V P]]] R]. rewrite r_read_bit_unb by assumption.
+  pose proof (r_get_spec r Wr) as Gr. pose proof (d_read_bit_spec d Wd) as Gd. rewrite <- V in Gd.
+  destruct (r_view r) as [|b t].
+  - rewrite Gr, Gd. cbn. split; [split; [reflexivity|assumption]|exact I].
+  - destruct Gr as [r' [E1 [V1 [W1 [R1 [P1 F1]]]]]]. destruct Gd as [d' [E2 [V2 [W2 [L2 [P2 F2]]]]]].
+    rewrite E1, E2. cbn. split; [|apply b2z_01].
+    split; [reflexivity|]. split; [|congruence]. repeat split; try assumption; try apply W1; try apply W2; try congruence; lia.
+Qed.
+
+Lemma simb_bit r d : simb r d -> rel_bit simb (r_read_bit r) (d_read_bitb d).
+Proof.
+  intros [[Wr [Wd [V P]]] [k [R L]]].
+  destruct (Z_le_gt_dec k 0) as [K|K].
+  - rewrite (r_read_past_end _ _ R K). rewrite d_read_past_end by lia.
+    cbn. split; [|right; reflexivity]. split; [reflexivity|].
+    split; [repeat split; try assumption; try apply Wr; try apply Wd|].
+    exists (k - 1). split; [reflexivity|lia].
+  - rewrite (r_read_inside _ _ R) by lia. rewrite d_read_inside by lia.
+    set (r0 := r_set_rem r (Some (k - 1))). set (d0 := d_set_left d (d_left d - 1)).
+    assert (Wr0 : r_wf r0) by exact Wr. assert (Wd0 : d_wf d0) by exact Wd.
+    pose proof (r_get_spec r0 Wr0) as Gr. pose proof (d_read_bit_spec d0 Wd0) as Gd.
+    change (r_view r0) with (r_view r) in Gr. change (d_view d0) with (d_view d) in Gd. rewrite <- V in Gd.
+    destruct (r_view r) as [|b t].
+    + rewrite Gr, Gd. cbn. split; [split; [reflexivity|exact P]|exact I].
+    + destruct Gr as [r' [E1 [V1 [W1 [R1 [P1 F1]]]]]]. destruct Gd as [d' [E2 [V2 [W2 [L2 [P2 F2]]]]]].
+      rewrite E1, E2. cbn. split; [|apply b2z_01].
+      split; [reflexivity|]. split.
+      * repeat split; try assumption; try apply W1; try apply W2; try congruence.
+        change (r_bitpos r0) with (r_bitpos r) in P1. change (d_bitpos d0) with (d_bitpos d) in P2. lia.
+      * exists (k - 1). split; [exact R1|]. rewrite L2. cbn [d0 d_set_left d_left]. lia.
+Qed.
+
+Lemma sim_pos r d : sim r d -> r_bitpos r = d_bitpos d.
+Proof. intros [[_ [_ [_ P]]] _]. exact P. Qed.
+Lemma simb_pos r d : simb r d -> r_bitpos r = d_bitpos d.
+Proof. intros [[_ [_ [_ P]]] _]. exact P. Qed.
+
+Lemma step_rel (Rel : rst -> dst -> Prop) m1 m2 k1 k2 :
+  (forall r d, Rel r d -> r_bitpos r = d_bitpos d) ->
+  rel_res Rel m1 m2 -> (forall r d, Rel r d -> k1 r = k2 d) ->
+  step r_bitpos m1 k1 = step d_bitpos m2 k2.
+Proof.
+  intros Hp H K. destruct m1 as [r [a1|e1]], m2 as [d [a2|e2]]; cbn in H; try contradiction; cbn [step].
+  - destruct H as [-> R]. rewrite (K _ _ R), (Hp _ _ R). reflexivity.
+  - destruct H as [E Pp]. rewrite E, Pp. reflexivity.
+Qed.
+
+Lemma fuel_eq r d : r_view r = d_view d -> r_fuel r = d_fuel d.
+Proof. unfold r_fuel, d_fuel. intros ->. reflexivity. Qed.
+
+Lemma body_agree : forall body r d k1 k2, simb r d ->
+  (forall r' d', simb r' d' -> k1 r' = k2 d') -> r_body body r k1 = d_body body d k2.
+Proof.
+  induction body as [|o t IH]; intros r d k1 k2 S K; cbn [r_body d_body].
+  - apply K. assumption.
+  - apply (step_rel simb); [exact simb_pos| |intros; apply IH; assumption].
+    assert (F : r_fuel r = d_fuel d) by (apply fuel_eq; apply S).
+    destruct o; cbn [r_bop d_bop].
+    + apply simb_bit. assumption.
+    + unfold r_read_uint, d_read_uintb. rewrite F. apply par_uint; [exact simb_pos|exact simb_bit|assumption].
+    + unfold r_read_sint, d_read_sintb. rewrite F. apply par_sint; [exact simb_pos|exact simb_bit|assumption].
+Qed.
+
+Lemma close_rel : forall n r d, sim r d ->
+  rel_res sim (zero_val (g_bitlist r_read_bit n r)) (opt_res (d_flush_n n d)).
+Proof.
+  induction n; intros r d S; cbn [g_bitlist d_flush_n].
+  - cbn. split; [reflexivity|assumption].
+  - destruct (sim_bit _ _ S) as [H _].
+    destruct (r_read_bit r) as [r1 [a1|e1]], (d_read_bit d) as [d1 [a2|e2]]; cbn in H; try contradiction; cbn [bind].
+    + destruct H as [-> S1].
+      assert (S2 : sim r1 (d_set_left d1 (d_left d1 - 1))) by exact S1.
+      specialize (IHn _ _ S2).
+      destruct (g_bitlist r_read_bit n r1) as [r2 [l|e]]; cbn [bind zero_val] in *; exact IHn.
+    + exact H.
+Qed.
+
+Fixpoint blocks_nonneg (p : list rop) : Prop :=
+  match p with
+  | [] => True
+  | PBlock len _ :: t => 0 <= len /\ blocks_nonneg t
+  | PAlign :: t => False
+  | _ :: t => blocks_nonneg t
+  end.
+
+Lemma run_agree : forall p r d, blocks_nonneg p -> sim r d -> r_run p r = d_run p d.
+Proof.
+  induction p as [|o t IH]; intros r d B S; cbn [r_run d_run].
+  - rewrite (sim_pos _ _ S). reflexivity.
+  - assert (F : r_fuel r = d_fuel d) by (apply fuel_eq; apply S).
+    destruct o; cbn [blocks_nonneg] in B.
+    + apply (step_rel sim); [exact sim_pos|apply sim_bit; assumption|intros; apply IH; assumption].
+    + apply (step_rel sim); [exact sim_pos| |intros; apply IH; assumption].
+      unfold r_read_nbits, d_read_nbits. apply par_nbits; [exact sim_bit|assumption].
+    + apply (step_rel sim); [exact sim_pos| |intros; apply IH; assumption].
+      unfold r_read_uint_lit, d_read_uint_lit, r_read_nbits, d_read_nbits.
+      replace (n * 8) with (8 * n) by lia. apply par_nbits; [exact sim_bit|assumption].
+    + apply (step_rel sim); [exact sim_pos| |intros; apply IH; assumption].
+      unfold r_read_uint, d_read_uint. rewrite F. apply par_uint; [exact sim_pos|exact sim_bit|assumption].
+    + apply (step_rel sim); [exact sim_pos| |intros; apply IH; assumption].
+      unfold r_read_sint, d_read_sint. rewrite F. apply par_sint; [exact sim_pos|exact sim_bit|assumption].
+    + contradiction.
+    + destruct B as [Hlen B]. destruct S as [C R].
+      apply (step_rel simb); [exact simb_pos| |].
+      * unfold r_block_begin. rewrite R. cbn. split; [reflexivity|].
+        split; [exact C|]. exists len. split; [reflexivity|]. cbn. lia.
+      * intros r1 d1 S1. apply body_agree; [assumption|].
+        intros r2 d2 [C2 [k [R2 L2]]].
+        apply (step_rel sim); [exact sim_pos| |intros; apply IH; assumption].
+        unfold r_close, r_block_end, d_flush_inputb. rewrite R2, L2.
+        unfold r_read_bitarray. apply close_rel. split; [exact C2|reflexivity].
+Qed.
+
+Lemma init_sim f : sim (r_init f 0) (d_init f 0).
+Proof.
+  unfold sim, sim_core, r_init, d_init, r_read_byte, d_read_byte, r_wf, d_wf, r_view, d_view, r_bitpos, d_bitpos, d_tell, to_bit_offset.
+  cbn [r_nb r_off r_cur r_file r_rem d_nb d_pos d_cur d_file d_left d_rec fst snd].
+  destruct (nth_z f 0) as [c|]; cbn [d_nb d_pos d_cur d_file d_left d_rec fst snd]; repeat split; try lia; reflexivity.
+Qed.
+
+Lemma readers_agree f p : blocks_nonneg p -> r_run p (r_init f 0) = d_run p (d_init f 0).
+Proof. intros B. apply run_agree; [assumption|apply init_sim]. Qed.
+
 Lemma exp_golomb_length_dom_ok v : 0 <= v -> exp_golomb_length_dom v = true.
 Proof. intros H. unfold exp_golomb_length_dom. destruct (v <? 0) eqn:E; [lia|reflexivity]. Qed.
 Lemma signed_exp_golomb_length_dom_ok v : signed_exp_golomb_length_dom v = true.
